@@ -438,13 +438,13 @@ func SplitStdioLines(b []byte) (lines [][]byte, rest []byte) {
 
 // LockedBuffer is a goroutine-safe byte sink that also records write overlap.
 type LockedBuffer struct {
-	mu        sync.Mutex
-	buf       bytes.Buffer
-	inWrite   atomic.Int32
-	Overlaps  atomic.Int64
-	Writes    atomic.Int64
-	Delay     func(n int) // optional schedule perturbation, called inside Write before appending
-	notify    chan struct{}
+	mu       sync.Mutex
+	buf      bytes.Buffer
+	inWrite  atomic.Int32
+	Overlaps atomic.Int64
+	Writes   atomic.Int64
+	Delay    func(n int) // optional schedule perturbation, called inside Write before appending
+	notify   chan struct{}
 }
 
 // NewLockedBuffer returns an empty buffer.
